@@ -15,9 +15,10 @@ import time
 
 pid, var = sys.argv[1], sys.argv[2]
 checks = sys.argv[3:] or [pid]
-src = f"/tmp/seed/{pid}"
-wt = f"/tmp/ev/{pid}{var}"
-out = f"/verif/seeded/{pid}-{var}"
+rnd = os.environ.get("SEED_ROUND", "")            # "" (first round) or "2": /tmp/seed2, seeded/<id>-R2<X>
+src = f"/tmp/seed{rnd}/{pid}"
+wt = f"/tmp/ev/{pid}{rnd}{var}"
+out = f"/verif/seeded/{pid}-{'R' + rnd if rnd else ''}{var}"
 tier = os.environ.get("SEED_TIER", "quick")
 
 
@@ -46,7 +47,7 @@ try:
     meta["checks"] = {}
     for c in checks:
         t0 = time.time()
-        e2 = dict(os.environ, VERIF_REPO=wt, VERIF_OUT=f"/tmp/ev/out-{pid}{var}", PYTHONWARNINGS="ignore")
+        e2 = dict(os.environ, VERIF_REPO=wt, VERIF_OUT=f"/tmp/ev/out-{pid}{rnd}{var}", PYTHONWARNINGS="ignore")
         rc = sh(f"cd /verif && timeout 3000 bin/check {c} {tier}", env=e2)
         lines = [l for l in rc.stdout.splitlines() if l.startswith(("VIOLATION", "OK", "MACHINERY", "KNOWN", "  "))]
         meta["checks"][c] = {"exit": rc.returncode, "detected": rc.returncode == 1, "wall_s": round(time.time() - t0, 1),
@@ -68,4 +69,4 @@ try:
         print("  ", c, v["exit"], v["wall_s"], "s", (v["first_lines"] or [""])[0][:200])
 finally:
     sh(f"git -C /repo worktree remove --force {wt}")
-    shutil.rmtree(f"/tmp/ev/out-{pid}{var}", ignore_errors=True)
+    shutil.rmtree(f"/tmp/ev/out-{pid}{rnd}{var}", ignore_errors=True)
